@@ -4,6 +4,8 @@ CONSTANTS
   MaxView = 1
   Height = 1
   InitSilentSets <- SilentPrimary
+  BugQuorum = FALSE
+  BugNoCommitLock = FALSE
   MaxSilentChanges = 0
 INVARIANTS Agreement AcceptJustified CommitLock
 CHECK_DEADLOCK FALSE
